@@ -277,6 +277,6 @@ def install(it, osm, modules=("input", "termhelpers", "window")):
         ov.update({"termios": termios, "tty": tty, "fcntl": fcntl, "os": os_, "signal": sig, "threading": threading,
                    "select": select, "time": time})
         if m == "input":
-            enc = N(lambda a, k: "utf-8")
+            enc = N(lambda a, k: getattr(osm, "encoding", "utf-8"))      # what the locale reports: may change during a process
             ov["sys"] = Record(platform=osm.platform, maxsize=2 ** 63 - 1, getdefaultencoding=enc)
             ov["locale"] = Record(getpreferredencoding=enc)
